@@ -31,7 +31,8 @@ theorem inv_fwd_step (c : Cfg) (ar aq : Nat) (s : S) (h : Inv c ar aq s) (hrun :
     · exact ⟨hm.1, hm.2.1, hm.2.2.2.1, hm.2.2.1⟩
   have hps : c.oneway = false → s.pass = 0 := fun ho => h.k25 hcl ho hmain.2.1
   obtain ⟨k0, k1, k2, k3, k4, k5, k6, k7, k8, k9, k10, k11, k12, k13, k14, k15, k16, k17, k18, k19, k20, k21, k22, k23, k24, k25, k26, k27, k28, k29, k30, k31, k32, k33⟩ := h
-  refine ⟨k0, ?_, ?_, ?_, ?_, k5, k6, k7, ?_, k9, k10, k11, k12, ?_, k14, ?_, ?_, ?_, ?_, ?_, k20, ?_, k22, ?_, ?_, k25, ?_, ?_, k28, ?_, ?_, k31, ?_, (fun hh => absurd hh (by simp [hcl]))⟩
+  have hnw : s.phase ≠ .WaitNotify := by rcases hp with hp | hp | hp <;> (rw [hp]; decide)
+  refine ⟨k0, ?_, ?_, ?_, ?_, k5, k6, k7_frame k7 hcl hnw rfl rfl, ?_, k9, k10, k11, k12, ?_, k14, ?_, ?_, ?_, ?_, ?_, k20, ?_, k22, ?_, ?_, k25, ?_, ?_, k28, ?_, ?_, k31, ?_, (fun hh => absurd hh (by simp [hcl]))⟩
   · simpa [K1, ht1] using k1
   · simpa [K2, ht1] using k2
   · simpa [K3, ht1] using k3
@@ -53,7 +54,7 @@ theorem inv_fwd_step (c : Cfg) (ar aq : Nat) (s : S) (h : Inv c ar aq s) (hrun :
   · intro _ _
     right
     refine ⟨hmain.1, hmain.2.1, hmain.2.2.2, hmain.2.2.1, ?_, ?_⟩
-    · intro how hq'; exact hgl how hq'
+    · intro how hq'; exact (hgl how hq').elim Or.inl (fun hh => Or.inr (Or.inl hh))
     · intro hw
       cases how : c.oneway with
       | true => right; rfl
@@ -64,7 +65,7 @@ theorem inv_fwd_step (c : Cfg) (ar aq : Nat) (s : S) (h : Inv c ar aq s) (hrun :
     rcases hh with hh | hh
     · exact k23 hcl (Or.inl hh)
     · exact absurd hh hq5
-  · intro _ how hq' _; exact hgl how hq'
+  · intro _ how hq' _; exact (hgl how hq').elim Or.inl (fun hh => Or.inr (Or.inl hh))
   · intro _ hh; exact absurd hh hq5
   · intro _ _ hu
     exact k27 hcl hfwd hu
@@ -112,7 +113,8 @@ theorem finish_sent (c : Cfg) (ar aq : Nat) (s : S) (h : Inv c ar aq s) (hrun : 
   have hcl := inv_not_cleaned h hrun
   simp only [processDone, Bool.or_eq_false_iff] at hpdn
   obtain ⟨⟨hpd, hdr⟩, hur⟩ := hpdn
-  obtain ⟨hsr, hdir⟩ := h.k7 hcl
+  have hsr := (h.k7 hcl).1
+  have hdir : s.direct = false := not_direct_of_phase h.k7 hcl (by rcases hp with hp | hp <;> (rw [hp]; decide))
   have hb1 : Base c ar aq (sent s t rq pt gt rd) := by
     obtain ⟨k1, k2, k4, k9, k10, k11, k12, k13, k14, k20, k21, k22, k31⟩ := h.base
     refine ⟨?_, ?_, ?_, k9, k10, k11, k12, ?_, k14, k20, ?_, k22, k31⟩
@@ -157,7 +159,8 @@ theorem inv_work_drd (c : Cfg) (ar aq : Nat) (s : S) (h : Inv c ar aq s) (hrun :
     · rw [hp] at hh; cases hh
     · exact hm.1
   have h29 := h.k29 hcl
-  have h24 := h.k24 hcl
+  have h24 : c.oneway = false → s.reqSent = true → s.rs.isSome = true → s.global = true ∨ s.globalExpired = true :=
+    fun a b d => or3_nd (h.k24 hcl a b d) (not_direct_of_phase h.k7 hcl (by rw [hp]; decide))
   have h21 := h.k21
   have hrsome : s.rs.isSome = true := by
     rcases h.k18 hcl hfwd with ⟨_, hh, _⟩ | hm
@@ -169,7 +172,7 @@ theorem inv_work_drd (c : Cfg) (ar aq : Nat) (s : S) (h : Inv c ar aq s) (hrun :
     · -- a reset arrived meanwhile: nothing is sent, `processError` deals with it
       have e : receiveData c s (!c.hasTrailers) = s := by simp [receiveData, hpdn]
       rw [e]
-      apply finish_inv c ar aq s h hrun (by intro hh; rw [hp] at hh; cases hh)
+      apply finish_inv c ar aq s h hrun (by intro hh; rw [hp] at hh; cases hh) (by intro hh; rw [hp] at hh; cases hh)
       intro h1 h2
       simp [processDone, hpd, h1, h2] at hpdn
     · simp only [Bool.not_eq_true] at hpdn
@@ -241,14 +244,15 @@ theorem inv_work_drt (c : Cfg) (ar aq : Nat) (s : S) (h : Inv c ar aq s) (hrun :
     · exact ⟨hm.1, hm.2.1⟩
   obtain ⟨hup, hrsome⟩ := hmain
   have h29 := h.k29 hcl
-  have h24 := h.k24 hcl
+  have h24 : c.oneway = false → s.reqSent = true → s.rs.isSome = true → s.global = true ∨ s.globalExpired = true :=
+    fun a b d => or3_nd (h.k24 hcl a b d) (not_direct_of_phase h.k7 hcl (by rw [hp]; decide))
   have h21 := h.k21
   by_cases hd : c.hasTrailers = true
   · simp only [hd, if_true]
     by_cases hpdn : processDone s = true
     · have e : receiveTrailers c s = s := by simp [receiveTrailers, hpdn]
       rw [e]
-      apply finish_inv c ar aq s h hrun (by intro hh; rw [hp] at hh; cases hh)
+      apply finish_inv c ar aq s h hrun (by intro hh; rw [hp] at hh; cases hh) (by intro hh; rw [hp] at hh; cases hh)
       intro h1 h2
       simp [processDone, hpd, h1, h2] at hpdn
     · simp only [Bool.not_eq_true] at hpdn
@@ -309,7 +313,8 @@ theorem inv_work_oneway (c : Cfg) (ar aq : Nat) (s : S) (h : Inv c ar aq s) (hru
       · rw [how] at ho; cases ho
       · exact hm.2.1
     have h29 := h.k29 hcl
-    have h24 := h.k24 hcl
+    have h24 : c.oneway = false → s.reqSent = true → s.rs.isSome = true → s.global = true ∨ s.globalExpired = true :=
+    fun a b d => or3_nd (h.k24 hcl a b d) (not_direct_of_phase h.k7 hcl (by rw [hp]; decide))
     have h21 := h.k21
     rw [hnext]
     have := inv_fwd_step c ar aq s h hrun .WaitNotify s.trace s.reqSent s.perTry s.global s.recvDone (Or.inr (Or.inr hp))
@@ -334,7 +339,7 @@ theorem inv_work_wait (c : Cfg) (ar aq : Nat) (s : S) (h : Inv c ar aq s) (hrun 
     cases hh : s.procDone with
     | false => rfl
     | true => have := h.k5 hh; rw [hcl] at this; cases this
-  obtain ⟨hsr, hdir⟩ := h.k7 hcl
+  have hsr := (h.k7 hcl).1
   have hfwd : fwdPhase s.phase = true := by simp [hp, fwdPhase]
   have hupf : upPhase s.phase = false := by simp [hp, upPhase]
   have h18 := h.k18 hcl hfwd
@@ -347,6 +352,16 @@ theorem inv_work_wait (c : Cfg) (ar aq : Nat) (s : S) (h : Inv c ar aq s) (hrun 
   have hb1 : Base c ar aq { s with notify := false } := by
     obtain ⟨k1, k2, k4, k9, k10, k11, k12, k13, k14, k20, k21, k22, k31⟩ := h.base
     exact ⟨k1, k2, k4, k9, k10, k11, k12, k13, k14, k20, k21, k22, k31⟩
+  by_cases hdt : s.direct = true
+  · -- woken by an asynchronous TerminateStream: the local reply is pending
+    obtain ⟨_, _, _, tur, tresp, tlc, tpt, tgt⟩ := (h.k7 hcl).2 hdt
+    have how : c.oneway = false := by
+      cases ho : c.oneway with
+      | false => rfl
+      | true => exact absurd hp (h.k32 hcl ho).2.1
+    exact finish_direct_gen c ar aq _ hb1 hrun hcl how h.k3 h.k6 hpd hsr hdt tur (h.k25 hcl how hrsome) tlc tresp tpt tgt hrst
+      (by show s.phase ≠ .UpFilter; rw [hp]; decide)
+  have hdir : s.direct = false := by simpa using hdt
   apply finish_plain c ar aq _ hb1 hrun hcl h.k3 h.k6 hpd hsr hdir
   · intro _
     refine ⟨?_, hrst⟩
@@ -359,7 +374,7 @@ theorem inv_work_wait (c : Cfg) (ar aq : Nat) (s : S) (h : Inv c ar aq s) (hrun 
       · rw [hp] at h0; cases h0
   · intro _ _ hu; exact h.k27 hcl hfwd hu
   · intro hur how
-    refine ⟨hup, hrsome, h.k23 hcl (Or.inl hur), by simp [hp], fun hq => h.k24 hcl how hq hrsome⟩
+    refine ⟨hup, hrsome, h.k23 hcl (Or.inl hur), by simp [hp], fun hq => or3_nd (h.k24 hcl how hq hrsome) hdir⟩
   · intro hur hdr
     have hur : s.upReset = false := hur
     have hdr : s.downReset = false := hdr
@@ -369,7 +384,7 @@ theorem inv_work_wait (c : Cfg) (ar aq : Nat) (s : S) (h : Inv c ar aq s) (hrun 
     have h27 := h.k27 hcl hfwd hurr
     simp only [hur, Bool.false_eq_true, false_or] at h27
     obtain ⟨k0, k1, k2, k3, k4, k5, k6, k7, k8, k9, k10, k11, k12, k13, k14, k15, k16, k17, k18, k19, k20, k21, k22, k23, k24, k25, k26, k27, k28, k29, k30, k31, k32, k33⟩ := h
-    refine ⟨k0, k1, k2, k3, k4, k5, k6, k7, ?_, k9, k10, k11, k12, k13, k14, ?_, ?_, ?_, ?_, ?_, k20, k21, k22, ?_, k24, k25, ?_, ?_, ?_, ?_, ?_, k31, ?_, (fun hh => absurd hh (by simp [hcl]))⟩
+    refine ⟨k0, k1, k2, k3, k4, k5, k6, k7_intro hsr hdir, ?_, k9, k10, k11, k12, k13, k14, ?_, ?_, ?_, ?_, ?_, k20, k21, k22, ?_, k24, k25, ?_, ?_, ?_, ?_, ?_, k31, ?_, (fun hh => absurd hh (by simp [hcl]))⟩
     · intro _; exact ⟨(k8 hcl).1, Or.inr (Or.inl (by simp [hp, Phase.next, upPhase]))⟩
     · intro _ _
       refine ⟨h27.2, h27.1, hur, Or.inr hurr, ?_, ?_, ?_⟩
